@@ -37,6 +37,12 @@ CLAIMED.update({
             MODEL_NOTE, "DESIGN.md 4/C18"),
 })
 
+CLAIMED.update({
+    "C20": ("model-based property testing: publish/subscriber-churn/query histories with every filter combination through local and serialised sessions vs. a bounded-deque history model under a virtual clock",
+            "Exploration: every get_events answer (entries, order, publication ids, payload, topic) is compared with the model; publications are one virtual second apart so time bounds are exact. Sampling.",
+            MODEL_NOTE, "DESIGN.md 4/C20"),
+})
+
 NOT_YET = {}
 
 def main():
